@@ -219,10 +219,13 @@ def cli_cases(chk, ctx):
             slen = r.choice([1, 2, 6, 6, 100, 1000] + ([] if chk.quick else [32767]))
             shape = r.choice(["periodic", "nonperiodic", "selfoverlap"])
             # where to plant occurrences relative to the tool's 32 KiB read blocks
-            where = r.choice(["block_edge", "start0", "start1", "end_eof", "prefix_eof", "random", "short_last_block"])
-            plant = {"slen": slen, "shape": shape, "where": where, "delta": r.randrange(-slen, slen + 1), "m": r.choice([1, 2, 3])}
-            if size < BS + slen:
-                size = r.choice([BS + slen + 5, 2 * BS + r.randrange(0, BS), 3 * BS])
+            where = r.choice(["block_edge", "block_edge", "block_edge", "start0", "start1", "end_eof", "prefix_eof", "random", "short_last_block"])
+            delta = r.randrange(-slen, slen + 1)
+            if where == "block_edge" and slen > 1 and r.random() < 0.6:
+                delta = -r.randrange(1, slen)   # guaranteed straddle, every split point over the runs
+            plant = {"slen": slen, "shape": shape, "where": where, "delta": delta, "m": r.choice([1, 2, 3])}
+            if size < BS * plant["m"] + 2 * slen + 5:
+                size = r.choice([BS * plant["m"] + 2 * slen + 5, BS * plant["m"] + BS + r.randrange(0, BS), (plant["m"] + 1) * BS])
         closed = r.choice([[], [], [], [0], [1], [2], [0, 1], [0, 1, 2]])
         out.append({"kind": "cli", "i": i, "opts": opts, "content": [kind, size, i], "plant": plant, "use_dict": use_dict,
                     "closed": closed, "zck": ctx["zck"], "unzck": ctx["unzck"], "unzck_stdout": r.random() < 0.3})
@@ -253,7 +256,8 @@ def build_cli_input(case):
         pos = []
         w = plant["where"]
         if w == "block_edge":
-            pos = [BS * plant["m"] + plant["delta"] - (n if plant["delta"] < 0 else 0)]
+            # delta in (-n, 0): the occurrence STRADDLES the 32 KiB read-block boundary; other values: just before / just after it
+            pos = [BS * plant["m"] + plant["delta"]]
         elif w == "start0":
             pos = [0]
         elif w == "start1":
